@@ -185,7 +185,10 @@ fn meta_of(s: &Snapshot, p: &str) -> Option<(Vec<u8>, u64, i128)> {
 
 /// Short histories on one source (the `inputs` dimension of C06, C08, C09)
 fn mini_histories(rep: &Report, prop: &str, b: &Bench, help: &Tree, src: &[u8]) {
-    for tn in [true, false] {
+    // quick tier: the option-off variant only for sources of up to two lines (the option acts on the last line only)
+    let nlines = src.iter().filter(|&&c| c == b'\n').count();
+    let tns: &[bool] = if !rep.thorough() && nlines >= 3 { &[true] } else { &[true, false] };
+    for &tn in tns {
         // the reference: a build from a tree without generated files
         reset_tree(b, help, src);
         let fresh = b.run_no_reset(Mode::Build, true, tn);
